@@ -249,6 +249,25 @@ static std::string classify_crash(const std::string& err, int status)
         size_t e = err.find('\n', q);
         return one_line(err.substr(q + 15, e == std::string::npos ? std::string::npos : e - q - 15));
     }
+    size_t a = err.find("ERROR: AddressSanitizer: ");
+    if (a != std::string::npos)
+    {
+        size_t e = err.find_first_of(" \n", a + 25);
+        std::string kind = err.substr(a + 25, e == std::string::npos ? std::string::npos : e - a - 25);
+        std::string func;
+        size_t f0 = err.find("#0 ", a);
+        if (f0 != std::string::npos)
+        {
+            size_t in = err.find(" in ", f0);
+            size_t eol = err.find('\n', f0);
+            if (in != std::string::npos && in < eol)
+            {
+                size_t fe = err.find_first_of(" (", in + 4);
+                func = err.substr(in + 4, fe == std::string::npos ? std::string::npos : fe - in - 4);
+            }
+        }
+        return one_line("AddressSanitizer " + kind + (func.empty() ? "" : " in " + func));
+    }
     size_t p = err.find("SUMMARY: ");
     if (p != std::string::npos)
     {
